@@ -160,7 +160,11 @@ class ChannelAuthenticationCapabilities(State):
                     self.auth_types.append(function)
 
     def get_max_auth_type(self):
-        for auth_type in ('md5', 'md2', 'straight', 'oem_proprietary', 'none'):
+        # The authentication types implemented by the RMCP interface come
+        # first (strongest first). MD2 and OEM proprietary are not implemented
+        # (see IpmiMsg.pack) and are only chosen when nothing else is offered,
+        # which then fails with NotSupportedError.
+        for auth_type in ('md5', 'straight', 'none', 'md2', 'oem_proprietary'):
             if auth_type in self.auth_types:
                 return self._functions[auth_type]
         return None
